@@ -83,7 +83,7 @@ def qprec(q):
 def run_case(case, ctx):
     from plinio.methods.mps.quant.nn import QuantIdentity
     rng = random.Random(case['prog_seed'])
-    prog = mpslib.gen_mps_program(rng)
+    prog = mpslib.gen_mps_program(rng, allow_reuse=True)
     temp = 10 ** (math.log10(0.05) + case['log_temp'] * (math.log10(20) - math.log10(0.05)))
     try:
         model, mps, xs = mpslib.convert_mps(prog, case['seed'], case['w_prec'], case['a_prec'],
@@ -101,6 +101,9 @@ def run_case(case, ctx):
             + ('-hard' if case['hard'] else ''))
     batches = {k: mpslib.in_range_inputs(prog, case['seed'], 3, k)
                for k in ('in', 'neg', 'above', 'spikes')}
+    # summary() is a function of the coefficients, not of the last sample: it is also read before
+    # any forward pass has re-sampled them (coefficients just assigned / loaded) ...
+    summaries = {'before-forward': mps.summary()}
     ys = {}
     with torch.no_grad():
         for k, x in batches.items():
@@ -110,9 +113,12 @@ def run_case(case, ctx):
                 ctx.violation('mps-forward-crash', {'sig': type(e).__name__, 'exc': repr(e)[:300]})
                 return
     summ = mps.summary()
+    summaries['after-forward'] = summ
     try:
         exported = mps.export()
         exported.eval()
+        # ... and after export(), which restores the pre-export sample
+        summaries['after-export'] = mps.summary()
     except Exception as e:
         ctx.violation('export-crash', {'sig': type(e).__name__, 'exc': repr(e)[:300],
                                        'features': prog['features']})
@@ -161,18 +167,21 @@ def run_case(case, ctx):
                 ctx.violation('precisions', {'sig': 'exported-vs-summary:' + k, 'layer': name,
                                              'summary': {kk: vv for kk, vv in s.items()},
                                              'exported': got})
-        # R-select: the summary must name the arg-max of the raw coefficients
-        for attr, key in (('out_mps_quantizer', 'out_precision'), ('w_mps_quantizer', 'w_precision'),
-                          ('in_mps_quantizer', 'in_precision')):
-            a = by_owner.get(name + '.' + attr)
-            if a is None or key not in s:
-                continue
-            ctx.mon('c02.r_select')
-            want = a['precision'][a['argmax']]
-            if s[key] != want:
-                ctx.violation('r-select', {'sig': key, 'layer': name, 'summary': s[key],
-                                           'argmax_precision': want, 'alpha': a['alpha'],
-                                           'precisions': a['precision']})
+        # R-select: the summary must name the arg-max of the raw coefficients, whenever it is read
+        for when, sm in summaries.items():
+            s2 = sm.get(name, {})
+            for attr, key in (('out_mps_quantizer', 'out_precision'),
+                              ('w_mps_quantizer', 'w_precision'),
+                              ('in_mps_quantizer', 'in_precision')):
+                a = by_owner.get(name + '.' + attr)
+                if a is None or key not in s2:
+                    continue
+                ctx.mon('c02.r_select')
+                want = a['precision'][a['argmax']]
+                if s2[key] != want:
+                    ctx.violation('r-select', {'sig': key + ':' + when, 'layer': name,
+                                               'summary': s2[key], 'argmax_precision': want,
+                                               'alpha': a['alpha'], 'precisions': a['precision']})
     # ---- producer / consumer rule on the exported graph ----------------------------------------
     for node in exported.graph.nodes:
         if node.op != 'call_module' or str(node.target) not in qmods:
